@@ -594,7 +594,26 @@ pub fn run_damage(case: &Case, dir: PathBuf) -> Outcome {
         crate::fsutil::remove_tree(&work);
         let _ = crate::fsutil::copy_tree(&live, &work);
         match open_state(&work, &case.cfg, lz4) {
-            Ok(real) if real == final_state => {}
+            Ok(real) if real == final_state => {
+                // the journal that was just read back (and trimmed) is appended to - under the
+                // read-time setting - and read back once more: commits of both sessions, exact
+                let mut c2 = case.cfg.clone();
+                c2.journal_lz4 = lz4;
+                let r = std::panic::catch_unwind(std::panic::AssertUnwindSafe(|| -> Result<(), String> {
+                    let want = faults::write_after_recovery(&work, &c2, &real, 3)?;
+                    let got = faults::read_dir_state(&work, &c2)?;
+                    if got != want {
+                        return Err(format!("after a reopen, further commits and another reopen: {} instead of {}", faults::brief_maps(&got), faults::brief_maps(&want)));
+                    }
+                    Ok(())
+                }));
+                stats.inc("roundtrip_continued");
+                match r {
+                    Ok(Ok(())) => {}
+                    Ok(Err(e)) => violation = Some(Violation::new("journal-roundtrip", format!("journal written with compression={} and read with compression={lz4}: {e}", case.cfg.journal_lz4))),
+                    Err(_) => violation = Some(Violation::new("journal-roundtrip", "panic while appending to / reopening the journal after the round trip".to_string())),
+                }
+            }
             Ok(real) => {
                 violation = Some(Violation::new("journal-roundtrip", format!("journal written with compression={} and read with compression={}: recovered {} instead of {}", case.cfg.journal_lz4, lz4, faults::brief_maps(&real), faults::brief_maps(&final_state))));
             }
